@@ -38,6 +38,26 @@ def make_target(kind):
             def m(self):
                 return 1
         return K
+    if kind in ("plain_subclass", "dbc_subclass"):
+        # a sub-class (with a public member of its own) of a class that already has an ENABLED invariant
+        bases = (icontract.DBC,) if kind == "dbc_subclass" else ()
+
+        @icontract.invariant(lambda self: True, enabled=True)
+        class Base(*bases):
+            def __init__(self, x=None):
+                self.x = x
+
+            def m(self):
+                return 1
+
+        class K(Base):
+            def own(self):
+                return 2
+
+            @property
+            def prop(self):
+                return 3
+        return K
     raise ValueError(kind)
 
 
@@ -64,7 +84,7 @@ def call_violating(kind, decorated):
             class H:
                 m = property(decorated)
             H().m
-        elif kind == "class":
+        elif kind in ("class", "plain_subclass", "dbc_subclass"):
             decorated(1)
         return "ret"
     except BaseException as e:
@@ -80,7 +100,7 @@ def table():
     SLOW = icontract.SLOW
     options = {"default": None, "True": True, "False": False, "SLOW": SLOW}
     for deco in ("require", "ensure", "snapshot_over_enabled_ensure", "snapshot_over_same_ensure", "snapshot_over_bare", "invariant"):
-        kinds = ["class"] if deco == "invariant" else ["function", "method", "static", "classm", "property", "async"]
+        kinds = ["class", "plain_subclass", "dbc_subclass"] if deco == "invariant" else ["function", "method", "static", "classm", "property", "async"]
         for opt, val in options.items():
             for kind in kinds:
                 kw = {} if val is None else {"enabled": val}
@@ -168,6 +188,13 @@ def family_digest():
                           "style": "lambda", "err": "default", "explicit_enabled": True} if kind != "func" else
                          {"kind": kind, "is_async": is_async, "levels": [{"pre": 3, "post": 3, "snap": 2}], "style": "lambda", "err": "default",
                           "explicit_enabled": True})
+            if kind != "func":
+                # the leaf overrides the member WITHOUT any contract of its own: everything it enforces is inherited
+                for base_levels in ([{"pre": 1, "post": 1, "snap": 1, "inv": 1}], [{"pre": 2, "post": 0, "snap": 0, "inv": 0}, {"defines": False}],
+                                    [{"pre": 0, "post": 2, "snap": 0, "inv": 0}]):
+                    specs.append({"kind": kind, "is_async": is_async, "dbc": True,
+                                  "levels": base_levels + [{"pre": 0, "post": 0, "snap": 0, "inv": 0, "defines": True}],
+                                  "style": "def", "err": "cls", "explicit_enabled": True})
     for spec in specs:
         prog = fam.Program(spec)
         if prog.def_exc is not None:
